@@ -908,3 +908,109 @@ def commit_refreshes_state(ctx, rid, what=""):
         else:
             ctx.bad(rid, sts[0], f"write_toml stores current.{k} only conditionally (inside a loop that may not run, or under a test): when that code is skipped the restart file keeps the value of an earlier step{what}",
                     construct=f"write_toml: conditional refresh of current.{k}")
+
+
+# --------------------------------------------------------------------------------------------
+# record (dict-shape) agreement: the ensemble dictionary is a closed record
+# --------------------------------------------------------------------------------------------
+ENSEMBLE_NAMES = ("ens_set", "sub_ens", "ens_pick")
+
+
+def _ensemble_locals(fn, base_keys):
+    """Names of a function that hold an ensemble dictionary: a parameter called like one (the
+    repository's vocabulary), a local taken from `self.ensembles[...]`, or a local built as a
+    dict literal with the record's characteristic keys."""
+    out = {a.arg for a in fn.args.args + fn.args.kwonlyargs if a.arg in ENSEMBLE_NAMES}
+    for n in walk_local(fn):
+        if isinstance(n, ast.Assign) and len(n.targets) == 1 and isinstance(n.targets[0], ast.Name):
+            v = n.value
+            if isinstance(v, ast.Subscript) and path_of(v.value) in ("self.ensembles", "state.ensembles"):
+                out.add(n.targets[0].id)
+            if isinstance(v, ast.Dict):
+                ks = {k.value for k in v.keys if isinstance(k, ast.Constant) and isinstance(k.value, str)}
+                if {"interfaces", "tis_set"} <= ks:
+                    out.add(n.targets[0].id)
+    return out
+
+
+def ensemble_record_keys(tree):
+    """Key set of an ensemble dictionary, read from the repository itself: the dict literal that
+    initiate_ensembles stores into the ensemble table, plus every string key stored later into a
+    value taken from `self.ensembles[...]` (the per-job stream), plus the literal of the
+    wire-fencing sub-ensemble."""
+    from ..util import REPEX, TIS
+    keys = set()
+    f = tree.func(REPEX, "REPEX_state.initiate_ensembles")
+    lits = [n.value for n in walk_local(f) if isinstance(n, ast.Assign) and isinstance(n.value, ast.Dict) and any(isinstance(t, ast.Subscript) for t in n.targets)]
+    if not lits:
+        from ..loader import AnalysisError
+        raise AnalysisError("ensemble record: the dict literal of initiate_ensembles was not found")
+    for d in lits:
+        keys |= {k.value for k in d.keys if isinstance(k, ast.Constant) and isinstance(k.value, str)}
+    base = set(keys)
+    for rel in (REPEX, TIS):
+        for m, q, fn in tree.all_funcs([rel]):
+            ens_locals = _ensemble_locals(fn, base)
+            for n in walk_local(fn):
+                if isinstance(n, ast.Assign):
+                    for t in n.targets:
+                        if isinstance(t, ast.Subscript) and isinstance(t.value, ast.Name) and t.value.id in ens_locals and isinstance(t.slice, ast.Constant) and isinstance(t.slice.value, str):
+                            keys.add(t.slice.value)
+                    if isinstance(n.value, ast.Dict) and any(isinstance(t, ast.Name) and t.id in ens_locals for t in n.targets):
+                        keys |= {k.value for k in n.value.keys if isinstance(k, ast.Constant) and isinstance(k.value, str)}
+    return keys
+
+
+def _keys_read_from_param(f, pname):
+    """String keys a function looks up in its parameter `pname` (p["k"], p.get("k"...), "k" in p)."""
+    out = {}
+    for n in walk_local(f):
+        if isinstance(n, ast.Subscript) and isinstance(n.value, ast.Name) and n.value.id == pname and isinstance(n.slice, ast.Constant) and isinstance(n.slice.value, str) and isinstance(n.ctx, ast.Load):
+            out.setdefault(n.slice.value, n)
+        if isinstance(n, ast.Call) and isinstance(n.func, ast.Attribute) and n.func.attr in ("get", "pop", "setdefault") and isinstance(n.func.value, ast.Name) and n.func.value.id == pname and n.args and isinstance(n.args[0], ast.Constant) and isinstance(n.args[0].value, str):
+            out.setdefault(n.args[0].value, n)
+        if isinstance(n, ast.Compare) and len(n.ops) == 1 and isinstance(n.ops[0], (ast.In, ast.NotIn)) and isinstance(n.left, ast.Constant) and isinstance(n.left.value, str) and isinstance(n.comparators[0], ast.Name) and n.comparators[0].id == pname:
+            out.setdefault(n.left.value, n)
+    return out
+
+
+def ensemble_record_agreement(ctx, rid, rels, callee_filter=None, what=""):
+    """A callee that is handed an ensemble dictionary (an argument that is the bare name of an
+    ensemble: `ens_set`, `sub_ens`, `ens_pick`) looks up only keys an ensemble dictionary has.
+    `.get(key, default)` on a key the record never holds does not fail: the option is silently
+    replaced by the callee's default - e.g. velocity settings looked up in the ensemble instead
+    of its `tis_set`."""
+    tree = ctx.tree
+    keys = ensemble_record_keys(tree)
+    defs = {}
+    for m, q, f in tree.all_funcs():
+        defs.setdefault(f.name, []).append((m, q, f))
+    n = 0
+    for m, q, f in tree.all_funcs(rels):
+        ens_locals = _ensemble_locals(f, keys)
+        for c in [x for x in walk_local(f) if isinstance(x, ast.Call)]:
+            nm = c.func.attr if isinstance(c.func, ast.Attribute) else (c.func.id if isinstance(c.func, ast.Name) else None)
+            if nm is None or nm not in defs or nm.startswith("__"):
+                continue
+            if callee_filter is not None and not callee_filter(nm):
+                continue
+            for i, a in enumerate(c.args):
+                if not (isinstance(a, ast.Name) and a.id in ens_locals):
+                    continue
+                for dm, dq, df in defs[nm]:
+                    ps = [x.arg for x in df.args.args]
+                    if "." in dq and ps and ps[0] in ("self", "cls") and isinstance(c.func, ast.Attribute):
+                        ps = ps[1:]
+                    if i >= len(ps):
+                        continue
+                    read = _keys_read_from_param(df, ps[i])
+                    if not read:
+                        continue
+                    n += 1
+                    missing = sorted(k for k in read if k not in keys)
+                    if missing:
+                        ctx.bad(rid, c, f"{q} passes the ensemble dictionary `{a.id}` as `{ps[i]}` of {dq}, which looks up {missing} in it; an ensemble dictionary has the keys {sorted(keys)} only, so the lookup silently yields the callee's default and the configured value is ignored{what}",
+                                construct=f"{short(c, 60)} -> {dq}({ps[i]})")
+                    else:
+                        ctx.ok(rid, c, f"{dq} reads {sorted(read)} from `{ps[i]}`: all keys of an ensemble dictionary")
+    return n
